@@ -89,7 +89,7 @@ def run(tier, seed, jobs=None):
                 V.append((key, f'{name}: {v["n_outcomes"]} different results depending on set iteration order '
                           f'(choice prefix {b["prefix"]})', {'item': name, 'prefix': b['prefix']},
                           {'default': a['t'][:3000], 'other': b['t'][:3000]}))
-            if v['default'] != v['outcomes'][0]['t'] and not v['capped']:
+            if v['default'][:100000] != v['outcomes'][0]['t'][:100000] and not v['capped']:
                 key = f'order:sorted-vs-hash-order:{family(name)}'
                 vcount[key] = vcount.get(key, 0) + 1
                 V.append((key, f'{name}: iterating sets in sorted order and in the interpreter\'s hash order give '
@@ -116,6 +116,11 @@ def run(tier, seed, jobs=None):
         ref_seed, ref = plain[0]
         for sd, res in plain:
             for name, r in res.items():
+                if r.get('raised') and sd == ref_seed:
+                    # a battery entry that raises decides nothing (it would read as perfectly deterministic)
+                    key = f'battery:item-raises:{family(name)}'
+                    vcount[key] = vcount.get(key, 0) + 1
+                    V.append((key, f'{name}: {r["t"][:300]}', {'item': name}, None))
                 if not r['repeat_same']:
                     key = f'repeat:{family(name)}'
                     vcount[key] = vcount.get(key, 0) + 1
